@@ -1,7 +1,212 @@
-import PonyVerif.Model.ConnLock
+/-
+  C19 — connections and the SQLite transaction lock are always released.
+  Property theorems only.  Model: `Model/ConnLock.lean` (mirrors SessionCache / SQLiteProvider / SQLitePool / Pool /
+  wrap_dbapi_exceptions; every DB-API call asks the failure oracle `cf.fails : Nat → Bool`).  All statements quantify
+  over EVERY oracle, every session program (`List (Op × Bool)`), every option set and every idle start state.
+-/
+import PonyVerif.Lemmas.ConnLock
+import PonyVerif.Lemmas.LockInterleave
 namespace PonyVerif.Props.C19
 open PonyVerif.Model.ConnLock
 
-theorem C19_placeholder : St.init.lock = false := rfl
+/-- the state of a thread between two sessions: no cache, nothing locked, no lock misuse so far, the pooled connection
+    (if any) open and outside a transaction, every other connection ever opened closed exactly once -/
+def Idle (s : St) : Prop :=
+  AccF s.poolCon s.nextCon s.closed ∧ s.bad = false ∧ s.pre = false ∧ s.lock = false ∧ lockState s.trace = some .idle ∧
+  s.hasCache = false ∧ s.cache.conn = none ∧ s.cache.inTx = false ∧ s.dirty = false
+
+/-- `pool.pid` exists whenever `pool.con` does (otherwise `Pool.connect` raises AttributeError) -/
+def PidOK (s : St) : Prop := s.poolCon.isSome = true → s.poolPid = true
+
+/-- no DB-API call with index ≥ n fails -/
+def QuietFrom (cf : Cfg) (n : Nat) : Prop := ∀ i, n ≤ i → cf.fails i = false
+
+theorem idle_inv {cf : Cfg} {q p : Bool} {s : St} (h : Idle s) (hq : q = true → QuietFrom cf s.n ∧ PidOK s)
+    (hp : p = true → s.poolPid = true) : Inv cf q p s := by
+  obtain ⟨hA, hb, hpre, hl, hls, hh, hc, hin, hd⟩ := h
+  refine ⟨⟨hA, ⟨hb, hpre, by simpa [hl, phaseOfLock] using hls⟩, ⟨fun h => ⟨(hq h).1, (hq h).2⟩, hp⟩⟩, ?_⟩
+  simp_all [CInv]
+
+theorem inv_idle {cf : Cfg} {q p : Bool} {s : St} (h : Inv cf q p s) (hh : s.hasCache = false) : Idle s := by
+  obtain ⟨⟨hA, ⟨hb, hpre, hls⟩, hF⟩, hl, htx, hcp, hdead, hdirty, hddl⟩ := h
+  have hc := hdead hh
+  have hin : s.cache.inTx = false := by cases h : s.cache.inTx <;> simp_all
+  have hd : s.dirty = false := by cases h : s.dirty <;> simp_all
+  have hl' : s.lock = false := by rw [hl, hin]
+  exact ⟨hA, hb, hpre, hl', by simpa [hl', phaseOfLock] using hls, hh, hc, hin, hd⟩
+
+example : Idle St.init := by simp [Idle, St.init, AccF, lockState]
+
+/-! ### one session -/
+
+/-- **C19 (one session).** However a session ends — for every option set, every body (operations, which of them the
+    user's code catches, whether the body raises), every failure oracle and every idle start state — the thread is idle
+    again afterwards: no cache, lock and pre-lock free, no lock misuse / failed assertion on the way, the connection
+    returned to the pool outside a transaction or closed. -/
+theorem C19_session_end (cf : Cfg) (hwf : cf.WF) (prog : List (Op × Bool)) (bodyRaises : Bool) (s : St) (h : Idle s) :
+    Idle (dbSession cf prog bodyRaises s).2 := by
+  have hI : Inv cf false false s := idle_inv h (by simp) (by simp)
+  have := spec_dbSession cf false false hwf prog bodyRaises s hI
+  unfold wp at this
+  split at this <;> rename_i heq <;> simp only [heq]
+  · exact inv_idle this.1 this.2
+  · exact inv_idle this.1 this.2.1
+
+/-- the lock is not left held, and the session never blocked on its own lock, released an unheld lock or failed an assertion -/
+theorem C19_lock_released (cf : Cfg) (hwf : cf.WF) (prog : List (Op × Bool)) (bodyRaises : Bool) (s : St) (h : Idle s) :
+    let s' := (dbSession cf prog bodyRaises s).2
+    s'.lock = false ∧ s'.pre = false ∧ s'.bad = false ∧ s'.cache.inTx = false ∧ s'.hasCache = false := by
+  obtain ⟨_, hb, hpre, hl, _, hh, _, hin, _⟩ := C19_session_end cf hwf prog bodyRaises s h
+  exact ⟨hl, hpre, hb, hin, hh⟩
+
+/-- every connection ever opened by the thread is, after the session, either the pooled connection (never closed, not
+    inside a transaction) or was closed exactly once -/
+theorem C19_connection_released_or_closed_once (cf : Cfg) (hwf : cf.WF) (prog : List (Op × Bool)) (bodyRaises : Bool)
+    (s : St) (h : Idle s) :
+    let s' := (dbSession cf prog bodyRaises s).2
+    s'.cache.conn = none ∧ s'.dirty = false ∧
+    ∀ k, k < s'.nextCon → (s'.poolCon = some k ∧ s'.closed.count k = 0) ∨ (s'.poolCon ≠ some k ∧ s'.closed.count k = 1) := by
+  obtain ⟨⟨h1, h2, _, _⟩, _, _, _, _, _, hc, _, hd⟩ := C19_session_end cf hwf prog bodyRaises s h
+  refine ⟨hc, hd, fun k hk => ?_⟩
+  by_cases hp : (dbSession cf prog bodyRaises s).2.poolCon = some k
+  · exact .inl ⟨hp, List.count_eq_zero.mpr (h1 k hp).2⟩
+  · exact .inr ⟨hp, h2 k hk hp⟩
+
+/-- the five named shapes of the quantifier are instances (read-only, optimistic write, immediate, serializable, ddl) -/
+example (fails : Nat → Bool) (s : St) (h : Idle s) :
+    Idle (dbSession ⟨fails, false, false, false⟩ [(.query, false)] false s).2 ∧
+    Idle (dbSession ⟨fails, false, false, false⟩ [(.modify [false], false)] false s).2 ∧
+    Idle (dbSession ⟨fails, true, false, false⟩ [(.query, false), (.modify [false], false)] false s).2 ∧
+    Idle (dbSession ⟨fails, true, false, false⟩ [(.query, false), (.modify [false], false)] true s).2 ∧
+    Idle (dbSession ⟨fails, true, true, false⟩ [(.write false, false)] false s).2 :=
+  ⟨C19_session_end _ (by simp [Cfg.WF]) _ _ s h, C19_session_end _ (by simp [Cfg.WF]) _ _ s h,
+   C19_session_end _ (by simp [Cfg.WF]) _ _ s h, C19_session_end _ (by simp [Cfg.WF]) _ _ s h,
+   C19_session_end _ (by simp [Cfg.WF]) _ _ s h⟩
+
+/-! ### sessions one after the other in one thread -/
+
+/-- any sequence of sessions, each with its own options, body and oracle, leaves the thread idle -/
+theorem C19_sessions (sessions : List (Cfg × List (Op × Bool) × Bool)) (hwf : ∀ x ∈ sessions, x.1.WF) :
+    ∀ (s : St), Idle s → Idle (runSessions sessions s).2 := by
+  induction sessions with
+  | nil => intro s h; exact h
+  | cons x rest ih =>
+    intro s h
+    obtain ⟨cf, prog, br⟩ := x
+    have h1 := C19_session_end cf (hwf _ (List.mem_cons_self ..)) prog br s h
+    have h2 := ih (fun y hy => hwf y (List.mem_cons_of_mem _ hy)) _ h1
+    simp only [runSessions]
+    exact h2
+
+/-- **a following session is neither blocked nor made to fail**: from any idle state in which `pool.pid` exists
+    whenever `pool.con` does, a session during which no DB-API call fails and whose body does not raise ends normally
+    (no exception of any kind, in particular no self-deadlock), and leaves such a state again -/
+theorem C19_quiet_session_succeeds (cf : Cfg) (hwf : cf.WF) (prog : List (Op × Bool)) (s : St) (h : Idle s) (hpid : PidOK s)
+    (hquiet : QuietFrom cf s.n) :
+    (dbSession cf prog false s).1 = .ok () ∧ Idle (dbSession cf prog false s).2 ∧ PidOK (dbSession cf prog false s).2 := by
+  have hI : Inv cf true false s := idle_inv h (fun _ => ⟨hquiet, hpid⟩) (by simp)
+  have := spec_dbSession cf true false hwf prog false s hI
+  unfold wp at this
+  split at this <;> rename_i heq <;> simp only [heq]
+  · exact ⟨trivial, inv_idle this.1 this.2, (this.1.1.2.2.1 rfl).2⟩
+  · simp at this
+
+/-- the full statement "later sessions never fail because of an earlier session" -/
+def C19_later_sessions_unaffected_full : Prop :=
+  ∀ (cf cf2 : Cfg) (prog prog2 : List (Op × Bool)) (br : Bool) (s : St), cf.WF → cf2.WF → Idle s → PidOK s →
+    QuietFrom cf2 (dbSession cf prog br s).2.n → (dbSession cf2 prog2 false (dbSession cf prog br s).2).1 = .ok ()
+
+/-- … is FALSE for the code as written: in a thread that has never connected, let the first PRAGMA of
+    `SQLitePool._connect` fail (call index 1).  `pool.con` is already assigned, `pool.pid` does not exist, and every later
+    session of the thread dies in `Pool.connect` with AttributeError although nothing fails any more. -/
+theorem C19_later_sessions_unaffected_full_false : ¬ C19_later_sessions_unaffected_full := by
+  intro h
+  have := h ⟨fun i => i == 1, false, false, false⟩ ⟨fun _ => false, false, false, false⟩ [(.query, false)] [(.query, false)]
+    false St.init (by simp [Cfg.WF]) (by simp [Cfg.WF]) (by simp [Idle, St.init, AccF, lockState]) (by simp [PidOK, St.init])
+    (by intro i _; rfl)
+  have hval : (dbSession ⟨fun _ => false, false, false, false⟩ [(.query, false)] false
+      (dbSession ⟨fun i => i == 1, false, false, false⟩ [(.query, false)] false St.init).2).1 = .error .attrError := by rfl
+  rw [hval] at this
+  cases this
+
+/-- the same statement holds in every thread that has completed one `_connect` before (`pool.pid` exists) -/
+theorem C19_later_sessions_unaffected_partial (cf cf2 : Cfg) (prog prog2 : List (Op × Bool)) (br : Bool) (s : St)
+    (hwf : cf.WF) (hwf2 : cf2.WF) (h : Idle s) (hpid : s.poolPid = true)
+    (hquiet : QuietFrom cf2 (dbSession cf prog br s).2.n) :
+    (dbSession cf2 prog2 false (dbSession cf prog br s).2).1 = .ok () ∧ (dbSession cf prog br s).2.poolPid = true := by
+  have hI : Inv cf false true s := idle_inv h (by simp) (fun _ => hpid)
+  have h1 := spec_dbSession cf false true hwf prog br s hI
+  have hpid' : (dbSession cf prog br s).2.poolPid = true := by
+    unfold wp at h1
+    split at h1 <;> rename_i heq <;> simp only [heq] <;> exact h1.1.1.2.2.2 rfl
+  exact ⟨(C19_quiet_session_succeeds cf2 hwf2 prog2 _ (C19_session_end cf hwf prog br s h) (fun _ => hpid') hquiet).1, hpid'⟩
+
+/-- the guard is satisfiable and non-trivial: a warmed-up thread, a session whose COMMIT and following ROLLBACK both fail -/
+example : (dbSession ⟨fun _ => false, true, false, false⟩ [(.query, false), (.modify [false], false)] false
+            (dbSession ⟨fun i => i == 13 || i == 14, false, false, false⟩ [(.modify [false], false)] false
+              (dbSession ⟨fun _ => false, false, false, false⟩ [(.query, false)] false St.init).2).2).1 = .ok () := by
+  rfl
+
+/-! ### what other threads see -/
+
+theorem lockEvents_append (a b : List Ev) : lockEvents (a ++ b) = lockEvents a ++ lockEvents b := by
+  induction a with
+  | nil => rfl
+  | cons e t ih => cases e <;> simp [lockEvents, ih]
+
+theorem run_append (ph : Phase) (a b : List LEv) : Phase.run ph (a ++ b) = (Phase.run ph a).bind (fun ph' => Phase.run ph' b) := by
+  induction a generalizing ph with
+  | nil => simp [Phase.run]
+  | cons e t ih =>
+    simp only [List.cons_append, Phase.run]
+    cases ph.step e <;> simp [ih]
+
+/-- `lockState` (newest first, over all events) is the protocol run over the chronological lock events -/
+theorem lockState_eq_run (tr : List Ev) : lockState tr = Phase.run .idle (lockEvents tr.reverse) := by
+  induction tr with
+  | nil => rfl
+  | cons e t ih =>
+    rw [List.reverse_cons, lockEvents_append, run_append, ← ih]
+    cases e <;> cases h : lockState t <;> simp [lockState, lockEvents, Phase.run, h] <;>
+      (rename_i ph; cases ph.step _ <;> simp)
+
+/-- **lock protocol of a session**: for every oracle, options, body and idle start state, the chronological lock events
+    of the session are a word of `(preAcq acq preRel rel)*` — every acquire is matched by exactly one release, nothing
+    is held at the end -/
+theorem C19_lock_protocol (cf : Cfg) (hwf : cf.WF) (prog : List (Op × Bool)) (bodyRaises : Bool) (s : St) (h : Idle s) :
+    Phase.run .idle (lockEvents (dbSession cf prog bodyRaises { s with trace := [] }).2.trace.reverse) = some .idle := by
+  have h0 : Idle { s with trace := [] } := by
+    obtain ⟨hA, hb, hpre, hl, hls, hh, hc, hin, hd⟩ := h
+    exact ⟨hA, hb, hpre, hl, rfl, hh, hc, hin, hd⟩
+  have := (C19_session_end cf hwf prog bodyRaises _ h0).2.2.2.2.1
+  rwa [lockState_eq_run] at this
+
+/-! ### threads: interleaved steps of N sessions -/
+
+open Interleave in
+/-- the lock events of N arbitrary sessions (each: options, body, oracle, idle start state of its own thread) -/
+def sessionEvents (xs : List (Cfg × List (Op × Bool) × Bool × St)) : List (List LEv) :=
+  xs.map fun x => lockEvents (dbSession x.1 x.2.1 x.2.2.1 { x.2.2.2 with trace := [] }).2.trace.reverse
+
+open Interleave in
+/-- **C19 (threads).** For N sessions in N threads and EVERY schedule of their steps: at most one thread holds the
+    transaction lock; a thread that has finished its session holds nothing; while some session is unfinished some
+    thread can move (no deadlock); and a session whose competitors have all finished is never blocked. -/
+theorem C19_threads (xs : List (Cfg × List (Op × Bool) × Bool × St)) (hx : ∀ x ∈ xs, x.1.WF ∧ Idle x.2.2.2)
+    (sched : List Nat) :
+    let w := runSchedule (initial (sessionEvents xs)) sched
+    w.threads.countP Thread.holdsTx ≤ 1 ∧
+    (∀ (j : Nat) (t : Thread), w.threads[j]? = some t → t.rest = [] → t.phase = .idle) ∧
+    ((∃ (j : Nat) (t : Thread), w.threads[j]? = some t ∧ t.rest ≠ []) → ∃ i, (step w i).isSome = true) ∧
+    (∀ (i : Nat) (t : Thread), w.threads[i]? = some t → t.rest ≠ [] →
+      (∀ (j : Nat) (t' : Thread), j ≠ i → w.threads[j]? = some t' → t'.rest = []) → (step w i).isSome = true) := by
+  have h0 : WInv (initial (sessionEvents xs)) := by
+    apply initial_inv
+    intro evs hevs
+    simp only [sessionEvents, List.mem_map] at hevs
+    obtain ⟨x, hxm, rfl⟩ := hevs
+    exact C19_lock_protocol x.1 (hx x hxm).1 x.2.1 x.2.2.1 x.2.2.2 (hx x hxm).2
+  have hI := runSchedule_inv sched h0
+  exact ⟨mutex hI, fun j t ht hf => finished_idle hI ht hf, progress hI, fun i t ht hne ho => not_blocked_by_finished hI ht hne ho⟩
 
 end PonyVerif.Props.C19
